@@ -9,6 +9,7 @@ import LhasaV.Lemmas.ArchivePack
 import LhasaV.Lemmas.ExtractTreeOpt
 import LhasaV.Lemmas.PrintList
 import LhasaV.Lemmas.ExtractTreeOw
+import LhasaV.Lemmas.ExtractTreeImp
 /-!
 # C06 — extraction reproduces the archived tree: contents, names, times, modes, links
 -/
@@ -386,5 +387,47 @@ theorem prompt_follows_spec (pol : Overwrite) (a : Bytes) (ls : List Bytes) (h :
     (∀ w pol' ls', askOne pol ls = some (w, pol', ls') →
       ∃ a', confirmOverwrite 64 pol a = some (w, pol', a') ∧ AnsInv pol' a' ls') :=
   ExtractTree.confirm_follows_spec pol a ls h
+
+/-! ## archives without directory entries (LHA for DOS, LHarc), and mixed ones -/
+
+open ExtractTree ExtractTree.Sample ArchiveOf Contain in
+/-- **Implicit parents.** An archive of files and safe links only (`ImplicitOk`: clean unique
+paths, no path a proper prefix of another, ANY order): extraction succeeds and leaves every entry
+as archived PLUS every proper prefix of an entry path as a directory 0755 under the umask with time
+`now` (`impTreeOf`; `implicit_tree_spelled`), nothing else; on bytes, no reader hypothesis. -/
+theorem extract_implicit_parents (es : List Entry) (hes : ImplicitOk es) (henc : Encodable es)
+    (o : Opts) (fs : Fs.St) (answers : Bytes) (ho : OptsOk o) (hfs : EmptyDir fs) (ha : Access fs) :
+    (run (archiveOf es) o fs answers).result = true ∧
+    (∀ p, p ≠ [] → Fs.lookup (run (archiveOf es) o fs answers).fs (fs.cwd ++ p) =
+      impTreeOf fs.now fs.umask es p) ∧
+    (∃ m t0 t, Fs.lookup fs fs.cwd = some (.dir m t0) ∧
+      Fs.lookup (run (archiveOf es) o fs answers).fs fs.cwd = some (.dir m t) ∧
+      (es ≠ [] → fs.cwd ≠ [] → t = fs.now)) ∧
+    (∀ x, ¬ fs.cwd <+: x → Fs.lookup (run (archiveOf es) o fs answers).fs x = Fs.lookup fs x) :=
+  ArchiveOf.extract_archiveOf_implicit es hes henc o fs answers ho hfs ha
+
+open ExtractTree in
+theorem implicit_tree_spelled (now umask : Nat) (es : List Entry) (h : ImplicitOk es) :
+    (∀ e ∈ es, impTreeOf now umask es e.path = some (e.final now umask) ∧ treeOf now umask es e.path = some (e.final now umask)) ∧
+    (∀ p e, e ∈ es → p ≠ [] → p <+: e.path → p ≠ e.path →
+      impTreeOf now umask es p = some (.dir (0o755 - (0o755 &&& umask)) now)) ∧
+    (∀ p, (∀ e ∈ es, ¬ p <+: e.path) → impTreeOf now umask es p = none) :=
+  ExtractTree.impTree_spelled now umask es h
+
+open ExtractTree ExtractTree.Sample ArchiveOf Contain in
+/-- **Mixed archives** (`WFI`: explicit directory entries with their contents contiguous, implicit
+parents anywhere, and LATE directory entries — arriving after something below them): a late
+directory entry is ignored (its recorded metadata is never applied: `keptOf` drops it), everything
+else as above. Generalises `extract_reproduces_tree` (`ExtractTree.wfi_of_wf`). -/
+theorem extract_mixed (es : List Entry) (hwf : WFI [] [] es) (henc : Encodable es)
+    (o : Opts) (fs : Fs.St) (answers : Bytes) (ho : OptsOk o) (hfs : EmptyDir fs) (ha : Access fs) :
+    (run (archiveOf es) o fs answers).result = true ∧
+    (∀ p, p ≠ [] → Fs.lookup (run (archiveOf es) o fs answers).fs (fs.cwd ++ p) =
+      impTreeOf fs.now fs.umask (keptOf [] es) p) ∧
+    (∃ m t0 t, Fs.lookup fs fs.cwd = some (.dir m t0) ∧
+      Fs.lookup (run (archiveOf es) o fs answers).fs fs.cwd = some (.dir m t) ∧
+      (es ≠ [] → fs.cwd ≠ [] → t = fs.now)) ∧
+    (∀ x, ¬ fs.cwd <+: x → Fs.lookup (run (archiveOf es) o fs answers).fs x = Fs.lookup fs x) :=
+  ArchiveOf.extract_archiveOf_mixed es hwf henc o fs answers ho hfs ha
 
 end LhasaV.Props.C06
